@@ -281,7 +281,7 @@ def _vm_size_bytes():
 
 
 def fork_call(fn, args=(), timeout=60.0, as_extra=1 << 30, faultlog_path=None, stream=False,
-              on_record=None):
+              on_record=None, quiet=False):
     """Run fn(*args) in a fork of this process (the pristine zygote).
 
     The child returns a JSON-serialisable value through a pipe.  With stream=True the
@@ -314,6 +314,10 @@ def fork_call(fn, args=(), timeout=60.0, as_extra=1 << 30, faultlog_path=None, s
                     resource.setrlimit(resource.RLIMIT_AS, (lim, lim))
                 except Exception:
                     pass
+            if quiet:
+                # a child that is expected to die may be killed by Py_FatalError, which writes to fd 2
+                dn = os.open(os.devnull, os.O_WRONLY)
+                os.dup2(dn, 2)
             import faulthandler
 
             flog = None
